@@ -219,7 +219,7 @@ PROPS['C04'] = {
               'contains is the subset test deciding fact visibility. Decision composition (Authorizer::authorize_inner, for EVERY outcome of the engine oracles): every query is evaluated under exactly the specification '
               'trusted set of its position (authorizer checks and policies: authorizer scopes, origin authorizer; authority checks: block 0; checks of block b: block b); on Ok(i) every authorizer, authority and block check '
               'passes by its per-kind rule (check if: one matching alternative; check all: one alternative matching with no counter-example; reject if: NO alternative matches), i is the first policy with a matching '
-              'alternative and it is an allow policy; on NoMatchingPolicy / Unauthorized the reported list contains, with its origin (authorizer or block index) and its index, every check that fails by the per-kind rule (for indices that fit the u32 fields); NoMatchingPolicy is returned only when no policy matches; Unauthorized{Allow(i) | Deny(i)} only when i is the first matching policy of that kind; nothing but the symbol '
+              'alternative and it is an allow policy; on NoMatchingPolicy / Unauthorized the reported list contains, with its origin (authorizer or block index) and its index, every check that fails by the per-kind rule (for indices that fit the u32 fields), and Unauthorized with an allow policy is returned only if some check fails; NoMatchingPolicy is returned only when no policy matches; Unauthorized{Allow(i) | Deny(i)} only when i is the first matching policy of that kind; nothing but the symbol '
               'table is modified. Queries: query_inner evaluates the rule from the authorizer origin under trusted_spec(rule scopes, {authority, authorizer}) - never the authorizer-level scopes - and query_all_inner under the token-level set '
               '(all blocks) when the rule has no scope and under its own scopes otherwise; both leave everything but the symbol table unchanged. Engine entry points (unit engine, relative to oracles for the join iterator, Rule::apply and expression evaluation): World::query_match / query_match_all hand their arguments unchanged to '
               'Rule::find_match / check_match_all; find_match is Ok(true) iff the rule application yields a first item that is a fact, Ok(false) iff it yields nothing, and the expression error otherwise; check_match_all is Ok(true) iff the body '
@@ -227,7 +227,7 @@ PROPS['C04'] = {
               'The fixpoint loop (World::run_with_limits, the real nested loops over the rule store; Rule::apply is an oracle): on Ok the fact set is CLOSED under one more round - every item that the application of any rule of the store, '
               'under its own trusted set and from its own block, yields over the final fact set is a fact that is already in the set, and none is an expression error (a round that adds nothing is detected by the fact count, '
               'cardinality lemma); facts are never removed; the rule store and the extern functions are untouched.' + _LOADB_PROVED,
-    'not_covered': ['the join (CombineIt) and Rule::apply (closures over it): oracles; how the oracles m_one / m_all of unit authz relate to the oracles of unit engine is by name only (both describe World::query_match*)', 'the order of the failed checks in the error value and the absence of spurious entries (completeness of the list is proved)',
+    'not_covered': ['the join (CombineIt) and Rule::apply (closures over it): oracles; how the oracles m_one / m_all of unit authz relate to the oracles of unit engine is by name only (both describe World::query_match*)', 'the order of the failed checks in the error value and the exact correspondence of each entry (completeness of the list and `a refusal with an allow policy means some check fails` are proved)',
                     'builder -> Datalog conversion and symbol interning (oracles: the Datalog object is a function of the builder object)', 'query / query_all: the prologue (run, remaining budget) and the conversion of derived facts to the caller type (iterator chains: oracle, rule A5)'],
     'assumptions': _ORIGIN_TRUST + _LOADB_ASSUME + ['World::query_match / query_match_all return what the oracles m_one / m_all say for (query, origin, trusted set); Check::convert / Rule::convert / scope conversion are functions of their argument',
                                     'time (Instant) is an uninterpreted input: a Timeout error may be returned at any check', 'Authorizer.blocks, when present, holds at least the authority block (requires blocks_nonempty)'],
